@@ -317,6 +317,10 @@ func (c *controlConn) setupConn(conn *Conn) error {
 	}
 
 	c.conn.Store(ch)
+	if atomic.LoadInt32(&c.state) == controlConnClosing {
+		// close() ran while this connection was being set up and may have missed it
+		return errors.New("control connection is closing")
+	}
 	if c.session.initialized() {
 		// We connected to control conn, so add the connect the host in pool as well.
 		// Notify session we can start trying to connect to the node.
